@@ -40,7 +40,11 @@ def run(rep):
                 "by (grammar, cfg, input).")
     rep.assumptions = ["grammars restricted to Peg!WellFormed (DESIGN.md section 7)",
                        "regexes of the shape pre[set]{min,}post; base types ID INT BOOL STRING; ASCII inputs"]
-    ng, per = (150, 8) if quick else (1500, 10)
+    # (M) + (S->I): bounded universes, every case replayed
+    for fam, depth in ([("ops", 1), ("kinds", 1)] if quick else [("ops", 2), ("kinds", 2), ("asg", 1), ("mods", 1)]):
+        P.judge_universe(rep, PID, fam, depth)
+    rep.exhaustive = True
+    ng, per = (100, 8) if quick else (1500, 10)
     cases = random_cases(rng, ng, per)
     info, stats = P.judge_cases(rep, PID, cases, label="random")
     rep.bounds["random"] = stats
@@ -51,7 +55,7 @@ def replay(path):
 
 
 META = dict(
-    modules=["Peg", "PegOracle"],
+    modules=["Peg", "PegOracle", "MC_Peg"],
     level_text=("Peg.tla is an executable statement of the documented PEG matching, meta-model inference and model "
                 "construction; TLC evaluates it on every generated (grammar, options, input) and the real parser's "
                 "verdict and model are compared with it."),
